@@ -146,3 +146,6 @@ def run(prog, rep, tier, cfg):
     # ---- frozen provenance table of the partition / deadline / expiration-queue summaries (tables/prov_miner_partition.json)
     n = provtable.check(X, 'K10', 'summary', SPECS['miner_partition'], provtable.load_table('prov_miner_partition.json'), only_keys=[r'power', r'^ret:', r'^arg:', r'sectors', r'unproven', r'faults', r'recoveries', r'terminated'])
     rep.floor('K10', 'summary_update_sites', n, 150)
+    # ---- running totals (amounts, power, datacap) accumulated in loops keep their earlier contributions
+    X.accumulator_integrity('K12', 'running-totals', ['fil_actor_miner', 'fil_actor_power'], 'running totals of amounts')
+
